@@ -152,3 +152,30 @@ func H_default_ops() {
 	verifAssert(!with.noFollow, "default follows symlinks")
 	verifReach("defaults")
 }
+
+// End to end: whatever native event the kernel was (last) asked to report for a
+// file is delivered with exactly the operations the table gives for it - also
+// when the file was added under a second name with another operation set (the
+// kernel then reports by the newer mask; the Watcher keeps one record per file).
+func H_inotify_delivered_ops() {
+	verifKReset()
+	verifK.addResolve = 0
+	w := verifNewInotify(0)
+	op1, op2 := Op(verifU32("op1")), Op(verifU32("op2"))
+	verifAssert(w.AddWith("/t/a", withOps(op1)) == nil, "add")
+	if verifBool("second-name") {
+		verifAssert(w.AddWith("/t/b", withOps(op2)) == nil, "add of another name of the same file")
+		verifReach("delivered-ops-alias")
+	}
+	m := verifMarkOf(uint32(verifK.nextWd))
+	verifAssert(m != nil && m.state == kLive, "model: the file has one live mark")
+	const deliverable = unix.IN_CREATE | unix.IN_MOVED_TO | unix.IN_DELETE | unix.IN_MODIFY | unix.IN_MOVED_FROM | unix.IN_ATTRIB |
+		unix.IN_OPEN | unix.IN_ACCESS | unix.IN_CLOSE_WRITE | unix.IN_CLOSE_NOWRITE
+	bits := verifU32("bits")
+	verifAssume(bits != 0 && bits&^(m.mask&deliverable) == 0) // the kernel reports only what the mark's mask asks for
+	ev, ok := verifFeed(w, uint32(m.wd), bits, 0, "")
+	verifAssert(ok, "the reader keeps running")
+	verifAssert(ev.Op == verifInotifyOps(bits), "a native event the kernel was asked to report is delivered with exactly the operations the table gives for it")
+	verifAssert(ev.Name == "/t/a", "under the name the file was first added with")
+	verifReach("delivered-ops")
+}
